@@ -16,7 +16,8 @@ PROP = "C23"
 RULE = ("request streams (directed catalogue + grammar pipelines of 1-4 messages with at most one deviation each + byte mutations), each "
         "executed under 4 (quick) / 6 (thorough) segmentations against a fresh evhttp; non-trivial = the reference parser finds at least one "
         "complete message or a must-reject message in the stream; distinct = hash of (options, stream bytes)")
-SIZES = dict(quick=1300, thorough=70000)
+SIZES = dict(quick=1100, thorough=55000)
+BATCH = 4000
 
 REG = dict(category="exploration",
            text="Runtime differential monitor: generated valid/adversarial HTTP/1.x request pipelines are sent over loopback to the real evhttp "
@@ -100,25 +101,28 @@ def catalogue():
     return R
 
 
-def build_cases(tier, seed):
+def iter_cases(tier, seed):
     rng = random.Random((seed << 8) ^ 0xC23)
-    cases = []
     n = SIZES[tier]
-    cat = catalogue()
+    thorough = (tier == "thorough")
     idx = 0
-    for name, data in cat:
+    for name, data in catalogue():
         for ext in (0, 1):
             c = ho.Case(idx, 'S', data, "ext=%d" % ext, tags=["cat:" + name], cfg=dict(ext=ext))
-            cases.append(c)
+            c.segs = gen.segmentations(rng, c.data, thorough=thorough)
+            yield c
             idx += 1
     while idx < n:
         data, tags = gen.gen_request_stream(rng)
         ext = 1 if rng.random() < 0.5 else 0
-        cases.append(ho.Case(idx, 'S', data, "ext=%d" % ext, tags=tags, cfg=dict(ext=ext)))
+        c = ho.Case(idx, 'S', data, "ext=%d" % ext, tags=tags, cfg=dict(ext=ext))
+        c.segs = gen.segmentations(rng, c.data, thorough=thorough)
+        yield c
         idx += 1
-    for c in cases:
-        c.segs = gen.segmentations(rng, c.data, thorough=(tier == "thorough"))
-    return cases
+
+
+def build_cases(tier, seed):
+    return list(iter_cases(tier, seed))
 
 
 def judge_case(c, res):
@@ -139,36 +143,28 @@ def judge_case(c, res):
     return viol
 
 
+def account(c, res):
+    msgs = ref.parse_request_stream(c.data)
+    if any(m.verdict in ('accept', 'either', 'reject') for m in msgs):
+        res.hashes.add(ho.stream_hash(c))
+    for t in set(c.tags):
+        res.add_stat("gen_" + t.replace(":", "_"), 1)
+    r1 = c.results.get('one')
+    res.add_stat("requests_delivered", len(r1["reqs"]))
+    res.add_stat("server_closed_before_fin", 1 if r1["closed_before_fin"] else 0)
+    for s in ho.out_statuses(r1["out"]):
+        res.add_stat("status_%s" % (s if s in (100, 200, 400, 413, 417, 501) else "other"), 1)
+    res.add_stat("streams", 1)
+    res.add_stat("segmentations_run", len(c.results))
+    if len(res.samples) < 5 and (c.idx % 97 == 5 or c.idx < 2):
+        res.samples.append(dict(stream=ho.short(c.data, 300), opts=c.opts, segmentations=[n for n, _ in c.segs],
+                                delivered=[ho.describe_req(q) for q in r1["reqs"]], statuses=ho.out_statuses(r1["out"])))
+
+
 def run(tier, seed):
     res = vlib.Result(PROP)
     vlib.build(ho.FLAVOR, [ho.HARNESS])
-    cases = build_cases(tier, seed)
-    nexec = ho.run_cases(res, PROP, cases, tier)
-    res.evaluations = nexec
-    for c in cases:
-        if len(c.results) != len(c.segs):
-            res.add_stat("cases_without_trace", len(c.segs) - len(c.results))
-            continue
-        msgs = ref.parse_request_stream(c.data)
-        if any(m.verdict in ('accept', 'either', 'reject') for m in msgs):
-            res.hashes.add(ho.stream_hash(c))
-        for t in set(c.tags):
-            res.add_stat("gen_" + t.replace(":", "_"), 1)
-        r1 = c.results.get('one')
-        res.add_stat("requests_delivered", len(r1["reqs"]))
-        res.add_stat("server_closed_before_fin", 1 if r1["closed_before_fin"] else 0)
-        for s in ho.out_statuses(r1["out"]):
-            res.add_stat("status_%s" % (s if s in (100, 200, 400, 413, 417, 501) else "other"), 1)
-        res.add_stat("streams", 1)
-        res.add_stat("segmentations_run", len(c.results))
-        if len(res.samples) < 5 and (c.idx % 97 == 5 or c.idx < 2):
-            res.samples.append(dict(stream=ho.short(c.data, 300), opts=c.opts, segmentations=[n for n, _ in c.segs],
-                                    delivered=[ho.describe_req(q) for q in r1["reqs"]], statuses=ho.out_statuses(r1["out"])))
-        for k, t in judge_case(c, res):
-            res.add_viol(k, t, ho.case_replay(PROP, c))
-    missing = res.stats.get("cases_without_trace", 0)
-    if missing:
-        res.inconclusive.append("%d executions produced no trace" % missing)
+    ho.run_batched(res, PROP, iter_cases(tier, seed), tier, BATCH, judge_case, account)
     return vlib.finish(res, tier, seed, RULE,
                        required=["streams", "requests_delivered", "ref_accept", "ref_reject", "ref_either", "ref_incomplete", "rejected_as_required",
                                  "delivered_judged", "server_closed_before_fin", "status_400", "status_200"],
